@@ -472,10 +472,18 @@ pub fn eval_qos_replay(c: &QosReplayCase) -> CaseOut {
             let Conn::Ok(mut conn, id) = connect(bench, s, &connack(true, mq(c.second_max))) else { return None };
             let before = bench.written(id).len();
             let _ = bench.run(conn.poll(), id);
-            Some((first, bench.written(id)[before..].to_vec()))
+            let replayed = bench.written(id)[before..].to_vec();
+            // new publishes on the resumed connection are capped by *its* Maximum QoS
+            let before = bench.written(id).len();
+            let mut handles = Vec::new();
+            for q in 1..=2u8 {
+                let r = bench.run(conn.publish(Publication::bytes("t", b"nn").qos(qos_of(q))), id);
+                handles.push(matches!(r, Some(Ok(Some(_)))));
+            }
+            Some((first, replayed, bench.written(id)[before..].to_vec(), handles))
         });
         let Built::Ran(out) = out else { panic!("machinery: config refused") };
-        let Some((first, second)) = out else { panic!("machinery: setup failed") };
+        let Some((first, second, fresh, handles)) = out else { panic!("machinery: setup failed") };
         let qos_of_wire = |b: &[u8]| -> Vec<u8> {
             let mut v = Vec::new();
             let mut off = 0;
@@ -503,7 +511,25 @@ pub fn eval_qos_replay(c: &QosReplayCase) -> CaseOut {
                 );
             }
         }
-        CaseOut { class: hash_of(&(qos_of_wire(&first), qos_of_wire(&second))), viol }
+        for q in qos_of_wire(&fresh) {
+            if q > limit2 {
+                flag(
+                    &mut viol,
+                    "qos-above-maximum",
+                    "new-publish-on-a-resumed-connection-with-a-lower-maximum-qos",
+                    format!("{}: a new PUBLISH goes out at QoS {} on a resumed connection whose CONNACK says Maximum QoS {}", ctx, q, limit2),
+                );
+            }
+        }
+        if limit2 == 0 && handles.iter().any(|h| *h) {
+            flag(
+                &mut viol,
+                "handle-does-not-match-used-qos",
+                "new-publish-on-a-resumed-connection-with-maximum-qos-0",
+                format!("{}: publishes capped to QoS 0 returned handles {:?}", ctx, handles),
+            );
+        }
+        CaseOut { class: hash_of(&(qos_of_wire(&first), qos_of_wire(&second), qos_of_wire(&fresh))), viol }
     })
 }
 
